@@ -337,12 +337,20 @@ func runC11(c *core.Ctx) {
 			if negMag == 0 {
 				negMag = posMag
 			}
+			// (the reweighting first in half of the cases: a copy that has not been written to yet)
+			first := r.Bool()
+			if first {
+				cp.I().Reweight([]float64{2, 0.5, 0x1p-12}[r.Intn(3)])
+				c.Count("copy_reweighted_before_anything_else", 1)
+			}
 			if posMag > 0 {
 				cp.I().AddWithCount(posMag, 4)
 				cp.I().AddWithCount(-negMag, 4)
 			}
 			cp.I().AddWithCount(0, 2)
-			cp.I().Reweight(2)
+			if !first {
+				cp.I().Reweight(2)
+			}
 		})
 		c.Count("copy_went_its_own_way", 1)
 	}
